@@ -2,14 +2,15 @@
   Rbgp.Rib.PropsC06 — C06, the readable statements.
 
   Everything here is about the MODEL (`Rbgp.Rib.Model`) and holds for every well-formed case
-  (`Case.WFWith g`: sources referred to by position, one family per session, AS_PATHs as
-  `Attribute::decode` guarantees them), every finite history of the operations and both build
+  (`Case.Good g`: sources and attribute sets referred to by position, one family per session,
+  AS_PATHs as `Attribute::decode` guarantees them), every finite history of the operations and both build
   profiles.  The three consumers (full / best-only / add-path) are written from the property text in
   SpecC06.lean; `check_run_ok` says the reference checker accepts every run of the model, the other
   theorems are the facts about single steps of a run that make it so.
 -/
 import Rbgp.Rib.ProofsC06
 import Rbgp.Rib.StepAll
+import Rbgp.Rib.RefProofs
 namespace Rbgp.Rib.PropsC06
 open Rbgp.Rib
 
@@ -19,9 +20,9 @@ open Rbgp.Rib
     of the model's run: after every step and for every family that is not deferring, folding the
     notifications (all of them / only `best` / only `any`) gives what `collect_loc_rib_paths` reports,
     destination identifiers are unique, and the end of a deferral announces every held prefix. -/
-theorem check_run_ok (p : Profile) (c : Case) (g : Nat → Fam) (h : c.WFWith g) :
+theorem check_run_ok (p : Profile) (c : Case) (g : Nat → Fam) (h : c.Good g) :
     SpecC06.check c (observe p c) = .ok :=
-  C06.check_run_ok allSound p h
+  C06.check_run_ok allSound refSound p h
 
 /-! ## Steps of a run -/
 
@@ -40,7 +41,7 @@ theorem runFrom_step {c : Case} {g : Nat → Fam} (p : Profile) (ops : List Op)
   induction ops generalizing t0 i with
   | nil => simp at h2
   | cons o ops ih =>
-    obtain ⟨t1, r1, _, hrun, hinv1, hf, _⟩ := run_step allSound p ops (hops o List.mem_cons_self) hinv
+    obtain ⟨t1, r1, _, hrun, hinv1, hf, _, _⟩ := run_step allSound p ops (hops o List.mem_cons_self) hinv
     rw [hrun] at h1 h3
     cases i with
     | zero =>
@@ -113,10 +114,27 @@ theorem notified_id {p : Profile} {c : Case} {g : Nat → Fam} (h : c.WFWith g) 
       (t'.destId ch.fam ch.net = none ∧ t.destId ch.fam ch.net = some ch.destId) :=
   (runStep_facts h hs).2.2.idNew
 
-/-- at most one notification per prefix and step -/
+/-- at most one notification per prefix and step, except for `restale_llgr` (one per re-marked
+    usable path) -/
 theorem one_per_prefix {p : Profile} {c : Case} {g : Nat → Fam} (h : c.WFWith g) {t t' : Table} {op : Op} {r : Res}
-    (hs : RunStep p c t op t' r) : (r.chs.map fun ch => (ch.fam, ch.net)).Nodup :=
-  (runStep_facts h hs).2.2.nets
+    (hs : RunStep p c t op t' r) (hop : op.isRestaleLlgr = false) : (r.chs.map fun ch => (ch.fam, ch.net)).Nodup :=
+  (runStep_facts h hs).2.2.nets hop
+
+/-- two notifications of one step for the same prefix carry the same paths and the same
+    destination identifier -/
+theorem same_prefix_same_payload {p : Profile} {c : Case} {g : Nat → Fam} (h : c.WFWith g) {t t' : Table}
+    {op : Op} {r : Res} (hs : RunStep p c t op t' r) {a b : Change} (ha : a ∈ r.chs) (hb : b ∈ r.chs)
+    (hf : a.fam = b.fam) (hn : a.net = b.net) : a.paths = b.paths ∧ a.destId = b.destId := by
+  obtain ⟨_, _, hfacts⟩ := runStep_facts h hs
+  refine ⟨by rw [hfacts.exact a ha, hfacts.exact b hb, hf, hn], ?_⟩
+  have ga := hfacts.idNew a ha
+  have gb := hfacts.idNew b hb
+  rw [hf, hn] at ga
+  rcases ga with ga | ⟨ga1, ga2⟩ <;> rcases gb with gb | ⟨gb1, gb2⟩
+  · rw [ga] at gb; exact Option.some.inj gb
+  · rw [ga] at gb1; exact absurd gb1 (by simp)
+  · rw [gb] at ga1; exact absurd ga1 (by simp)
+  · rw [ga2] at gb2; exact Option.some.inj gb2
 
 /-! ## 2. Destination identifiers -/
 
@@ -188,8 +206,15 @@ theorem exCase_wf : exCase.WFWith (fun _ => .v4) := by
   · trivial
   · exact ⟨rfl, rfl⟩
 
+theorem exCase_good : exCase.Good (fun _ => .v4) where
+  wf := exCase_wf
+  attrRef := by
+    intro op hop
+    simp only [exCase, List.mem_cons, List.not_mem_nil, or_false] at hop
+    rcases hop with rfl | rfl | rfl | rfl <;> first | rfl | trivial
+
 /-- the hypotheses of `check_run_ok` are satisfiable -/
-example : SpecC06.check exCase (observe .debug exCase) = .ok := check_run_ok .debug exCase _ exCase_wf
+example : SpecC06.check exCase (observe .debug exCase) = .ok := check_run_ok .debug exCase _ exCase_good
 
 /-- the run of the example has four steps and does not panic -/
 example : (run .debug exCase).1.length = 4 ∧ (run .debug exCase).2 = false := by decide
@@ -228,6 +253,7 @@ end Rbgp.Rib.PropsC06
 #print axioms Rbgp.Rib.PropsC06.fold_addpath_topN_eq
 #print axioms Rbgp.Rib.PropsC06.notified_id
 #print axioms Rbgp.Rib.PropsC06.one_per_prefix
+#print axioms Rbgp.Rib.PropsC06.same_prefix_same_payload
 #print axioms Rbgp.Rib.PropsC06.ids_unique
 #print axioms Rbgp.Rib.PropsC06.id_stable
 #print axioms Rbgp.Rib.PropsC06.deferral_silent
